@@ -330,14 +330,14 @@ fn child_main() {
     }
 }
 
-struct Worker { child: std::process::Child, stdin: std::process::ChildStdin, rx: std::sync::mpsc::Receiver<String> }
+struct Worker { child: std::process::Child, stdin: std::process::ChildStdin, rx: std::sync::mpsc::Receiver<String>, served: u32 }
 
 fn spawn_worker() -> Worker {
     use std::io::BufRead;
     use std::process::{Command, Stdio};
     let exe = std::env::current_exe().unwrap();
     let mut child = Command::new("sh")
-        .arg("-c").arg("ulimit -v 4000000; exec \"$0\" child").arg(&exe)
+        .arg("-c").arg("ulimit -v 4000000; ulimit -t 10; exec \"$0\" child").arg(&exe)
         .stdin(Stdio::piped()).stdout(Stdio::piped()).stderr(Stdio::null())
         .spawn().expect("spawn child");
     let stdin = child.stdin.take().unwrap();
@@ -348,12 +348,12 @@ fn spawn_worker() -> Worker {
             match line { Ok(l) => { if tx.send(l).is_err() { break } } Err(_) => break }
         }
     });
-    Worker { child, stdin, rx }
+    Worker { child, stdin, rx, served: 0 }
 }
 
 thread_local! { static WORKER: std::cell::RefCell<Option<Worker>> = std::cell::RefCell::new(None); }
 
-/// Runs one case in a worker process with an address-space limit and a deadline: a corrupted archive can make
+/// Runs one case in a worker process with an address-space limit, a CPU-time limit and a wall-clock deadline: a corrupted archive can make
 /// the real code loop forever or allocate without bound (cyclic chain); what was observed until then is the case.
 /// The worker is reused for the following cases unless it had to be killed.
 fn run(input: &Value) -> CaseOut {
@@ -361,7 +361,7 @@ fn run(input: &Value) -> CaseOut {
     let mut w = WORKER.with(|c| c.borrow_mut().take()).unwrap_or_else(spawn_worker);
     let sent = writeln!(w.stdin, "{}", input).and_then(|_| w.stdin.flush()).is_ok();
     let deadline = std::time::Instant::now() + std::time::Duration::from_secs(
-        std::env::var("C26_CASE_TIMEOUT").ok().and_then(|s| s.parse().ok()).unwrap_or(20));
+        std::env::var("C26_CASE_TIMEOUT").ok().and_then(|s| s.parse().ok()).unwrap_or(120));
     let mut lines: Vec<Value> = Vec::new();
     let mut ended = false;
     let mut aborted = "crashed";
@@ -378,7 +378,10 @@ fn run(input: &Value) -> CaseOut {
             Err(std::sync::mpsc::RecvTimeoutError::Disconnected) => break,
         }
     }
-    if ended {
+    w.served += 1;
+    if ended && w.served < 150 {
+        // reuse; a worker is retired after 150 cases so that its CPU-time limit (10 s, against endless loops) is
+        // never reached by accumulated honest work
         WORKER.with(|c| *c.borrow_mut() = Some(w));
     } else {
         let _ = w.child.kill();
